@@ -5,6 +5,7 @@ package props
 
 import (
 	"math/big"
+	"strings"
 	"testing"
 	"time"
 
@@ -118,4 +119,44 @@ func TestRegressC15(t *testing.T) {
 		c.End(&bt)
 		st.Case(true, "regress: write-once across commit, first value "+val)
 	}
+}
+
+// TestRegressSpelling: an owner or recipient spelled in upper case (valid bech32) is the same
+// account (fixed 38cdc64).
+func TestRegressSpelling(t *testing.T) {
+	v := NewVestWorld([]VType{{Name: "vt0", Free18: "0", LockupNs: 0, VestNs: 100 * dayNs}})
+	owner := KeyAcc(1).Addr
+	upper := func(a sdk.AccAddress) string { return strings.ToUpper(a.String()) }
+	if res := v.Run(&vestingtypes.MsgCreateVestingPool{Owner: owner.String(), Name: "p", Amount: sdk.NewInt(1000), Duration: time.Hour, VestingType: "vt0"}); !res.OK() {
+		t.Fatalf("create pool: %v %v", res.Err, res.Panic)
+	}
+	// genesis pool flag so that lineage is observable
+	avp, _ := v.App.CfevestingKeeper.GetAccountVestingPools(v.Ctx, owner.String())
+	avp.VestingPools[0].GenesisPool = true
+	v.App.CfevestingKeeper.SetAccountVestingPools(v.Ctx, avp)
+	if _, err := v.App.CfevestingKeeper.VestingPools(sdk.WrapSDKContext(v.Ctx), &vestingtypes.QueryVestingPoolsRequest{Owner: upper(owner)}); err != nil {
+		t.Fatalf("VestingPools query with the owner spelled in upper case: %v", err)
+	}
+	to := v.NextFresh()
+	if res := v.Run(&vestingtypes.MsgSendToVestingAccount{Owner: upper(owner), ToAddress: upper(to), VestingPoolName: "p", Amount: sdk.NewInt(400), RestartVesting: true}); !res.OK() {
+		t.Fatalf("send with owner and recipient spelled in upper case rejected: %v %v", res.Err, res.Panic)
+	}
+	child := v.NextFresh()
+	if res := v.Run(&vestingtypes.MsgSplitVesting{FromAddress: to.String(), ToAddress: child.String(), Amount: sdk.NewCoins(sdk.NewInt64Coin(Denom, 100))}); !res.OK() {
+		t.Fatalf("split: %v %v", res.Err, res.Panic)
+	}
+	tr, found := v.App.CfevestingKeeper.GetVestingAccountTrace(v.Ctx, child.String())
+	if !found || !tr.IsGenesisOrFromGenesis() {
+		t.Fatalf("account split from a genesis-pool account whose address the send spelled in upper case: traced=%v %+v", found, tr)
+	}
+	v.Advance(2 * 3600 * secNs)
+	bal := v.Bal(owner)
+	if res := v.Run(&vestingtypes.MsgWithdrawAllAvailable{Owner: upper(owner)}); !res.OK() {
+		t.Fatalf("withdraw with the owner spelled in upper case rejected: %v %v", res.Err, res.Panic)
+	}
+	if got := v.Bal(owner).Sub(bal...); !got.IsEqual(sdk.NewCoins(sdk.NewInt64Coin(Denom, 600))) {
+		t.Fatalf("withdraw with the owner spelled in upper case paid %s, the matured pool held 600", got)
+	}
+	StatsFor("C06").Case(true, "regress: owner and recipient spelled in upper case")
+	StatsFor("C17").Case(true, "regress: owner and recipient spelled in upper case")
 }
